@@ -100,6 +100,11 @@ def no_registration_on_failure(ctx):
         if isinstance(n, ast.ExceptHandler):
             sets_none = any(isinstance(x, ast.Assign) and isinstance(x.value, ast.Constant) and x.value.value is None for st in n.body for x in walk_local(st)) \
                 or any(isinstance(x, ast.Return) and (x.value is None or isinstance(x.value, ast.Constant) and x.value.value is None) for st in n.body for x in walk_local(st))
+            if not sets_none:
+                # the None may be produced after the try statement: every way from the handler to the end of the function passes it
+                none_ids = [i for x in body_walk(f.node) if (isinstance(x, ast.Return) and (x.value is None or (isinstance(x.value, ast.Constant) and x.value.value is None)))
+                            or (isinstance(x, ast.Assign) and isinstance(x.value, ast.Constant) and x.value.value is None) for i in cfg.node_of(x)]
+                sets_none = bool(none_ids) and cfg.all_paths_pass(cfg.ids(n), [cfg.exit], none_ids, exc=False)
             ctx.check(_appends_error(n.body) and sets_none, f'{f.qualname}:handler `{src(n.type) if n.type else "bare"}` reports and yields None', n,
                       'appends to self.errors and yields no module', 'a creation failure is not reported as node error or still yields a module object', f)
 
